@@ -171,6 +171,13 @@ def run(case, ctx):
     _mon.take()
     spans = {}
     try:
+        # history element: a previous request for another group of the SAME order (and otherwise equal arguments) must
+        # not influence this one (module-level memo tables are the library's only shared mutable state)
+        decoys = [n for n, Gd in rgroup.subgroups(D).items() if n != G and len(Gd) == len(ops)]
+        if decoys and case["M"] <= 3:
+            geom.get_unique_invariant_filters(M, k, p, D, [np.asarray(g) for g in rgroup.subgroups(D)[decoys[0]]], "normalize")
+            evals += 1
+            viols += _mon.take()
         for scale in ("one", "normalize"):
             _mon.last = None
             fl = geom.get_unique_invariant_filters(M, k, p, D, ops, scale)
